@@ -2,7 +2,7 @@
 closure variables are not overridable, declining leaves the value untouched, activation order is preserved."""
 import ast
 
-from ..astq import is_name, is_self_attr, returns_of, compare_normal
+from ..astq import compare_normal, conds, expand, facts_of, is_name, is_self_attr, names_in, returns_of
 from ..cfg import CFG
 from ..core import order, AnalysisError, norm, walk_local
 from ..xform import query as Q
@@ -138,58 +138,48 @@ def run(repo, chk):
     g = CFG(ia.node, lambda s: isinstance(s, (ast.Raise, ast.Assert)))
     raises = [n for n in g.nodes if n.kind == "stmt" and isinstance(n.stmt, ast.Raise) and "OverrideException" in norm(n.stmt)]
     ok = False
+    params = [a.arg for a in ia.node.args.args]
+    vname = params[4] if len(params) >= 6 else "value"
+    ovr = params[5] if len(params) >= 6 else "overridable"
+    frdef = [n for n in walk_local(ia.node) if isinstance(n, ast.Assign) and len(n.targets) == 1 and isinstance(n.targets[0], ast.Name) and isinstance(n.value, ast.Call)
+             and isinstance(n.value.func, ast.Attribute) and n.value.func.attr == "intercept"]
+    FR = frdef[0].targets[0].id if len(frdef) == 1 else "<result of intercept>"
     if len(raises) == 1:
-        conds = []
-        cur, child = raises[0].stmt._parent, raises[0].stmt
-        while cur is not ia.node:
-            if isinstance(cur, ast.If):
-                conds.append(norm(cur.test) if child in cur.body else f"not ({norm(cur.test)})")
-            child, cur = cur, cur._parent
         logs = g.find(lambda n: n.kind == "stmt" and (".log(" in n.text() or ".trigger(" in n.text()))
         before = all(not g.path_exists(l, raises[0]) for l in logs)
-        ok = sorted(conds) == sorted(["not overridable", "fr_value is not ABSENT"]) and before
+        ok = sorted(set(conds(raises[0].stmt, ia.node))) == sorted([f"not {ovr}", f"{FR} is not ABSENT"]) and before
     chk.ob("R04.3", "interpret.Interactor.interact:override-of-non-overridable-raises", ok, ia.where,
            "when an intercept answers for a non-overridable variable, OverrideException is raised before anything is logged or triggered")
 
     # ---------------- R04.4
-    params = [a.arg for a in ia.node.args.args]
-    vname = params[4] if len(params) >= 6 else "value"
     defs = [n for n in walk_local(ia.node) if isinstance(n, ast.Assign) and any(is_name(t, vname) for t in n.targets)]
-    ok = len(defs) == 1 and is_name(defs[0].value, "fr_value")
+    ok = len(defs) == 1 and is_name(defs[0].value, FR)
     guard = None
     if ok:
-        cur, child = defs[0]._parent, defs[0]
-        conds = []
-        while cur is not ia.node:
-            if isinstance(cur, ast.If):
-                conds.append(norm(cur.test) if child in cur.body else f"not ({norm(cur.test)})")
-            child, cur = cur, cur._parent
-        guard = conds
-        ok = conds == ["fr_value is not ABSENT"]
+        guard = sorted(set(conds(defs[0], ia.node)))
+        ok = f"{FR} is not ABSENT" in guard and set(guard) <= {f"{FR} is not ABSENT", ovr}
     chk.ob("R04.4", "interpret.Interactor.interact:value-redefined-only-by-intercept-result", ok, ia.where,
-           f"`{vname}` is reassigned only by `{vname} = fr_value` under `fr_value is not ABSENT` (guards found: {guard})")
+           f"`{vname}` is reassigned only by `{vname} = {FR}` under `{FR} is not ABSENT` (conditions found: {guard})")
     r = returns_of(ia.node)
     chk.ob("R04.4", "interpret.Interactor.interact:returns-value", len(r) == 1 and is_name(r[0].value, vname), ia.where, f"interact returns `{vname}` (the argument unless overridden)")
-    frdef = [n for n in walk_local(ia.node) if isinstance(n, ast.Assign) and any(is_name(t, "fr_value") for t in n.targets)]
-    chk.ob("R04.4", "interpret.Interactor.interact:intercept-sees-original", len(frdef) == 1 and norm(frdef[0].value) == f"wfr.intercept({vname})", ia.where,
+    chk.ob("R04.4", "interpret.Interactor.interact:intercept-sees-original", len(frdef) == 1 and [norm(a_) for a_ in frdef[0].value.args] == [vname] and not conds(frdef[0], ia.node)
+           and not any(order(d) < order(frdef[0]) for d in defs), ia.where,
            "the intercept is asked once, with the original value as the tentative value")
     wi = repo.func("interpret.WorkingFrame.intercept")
-    tw = norm(wi.node)
-    init = [n for n in wi.node.body if isinstance(n, ast.Assign) and is_name(n.targets[0], "rval")]
-    chk.ob("R04.4", "interpret.WorkingFrame.intercept:default-ABSENT", len(init) == 1 and is_name(init[0].value, "ABSENT") and
-           len(returns_of(wi.node)) == 1 and is_name(returns_of(wi.node)[0].value, "rval"), wi.where, "without an answering handler the result is ABSENT (= keep the original value)")
-    inner = [n for n in walk_local(wi.node) if isinstance(n, ast.Assign) and is_name(n.targets[0], "rval") and n not in init]
-    ok = len(inner) == 1 and is_name(inner[0].value, "tmp")
+    fwi = facts_of(wi)
+    wr = returns_of(wi.node)
+    R = wr[0].value.id if len(wr) == 1 and isinstance(wr[0].value, ast.Name) else "<result>"
+    init = [n for n in wi.node.body if isinstance(n, ast.Assign) and is_name(n.targets[0], R)]
+    chk.ob("R04.4", "interpret.WorkingFrame.intercept:default-ABSENT", len(init) == 1 and is_name(init[0].value, "ABSENT") and len(wr) == 1, wi.where,
+           "without an answering handler the result is ABSENT (= keep the original value)")
+    inner = [n for n in walk_local(wi.node) if isinstance(n, ast.Assign) and is_name(n.targets[0], R) and n not in init]
+    ok = len(inner) == 1
     if ok:
-        conds = []
-        cur, child = inner[0]._parent, inner[0]
-        while cur is not wi.node:
-            if isinstance(cur, ast.If):
-                conds.append(norm(cur.test))
-            child, cur = cur, cur._parent
-        ok = conds[0] == "tmp is not ABSENT" and not any("rval" in c for c in conds)
+        ans = expand(inner[0].value, wi.node)
+        cs = [c for t, c, n in fwi.items if n is inner[0]][0]
+        ok = ans.startswith("acc.intercept(") and f"{ans} is not ABSENT" in cs and not any(R in names_in(ast.parse(c, mode="eval")) for c in conds(inner[0], wi.node))
     chk.ob("R04.4", "interpret.WorkingFrame.intercept:last-non-ABSENT-wins", ok, wi.where,
-           "each handler's non-ABSENT answer overwrites the previous one (no 'first answer sticks' condition on rval)")
+           "each handler's non-ABSENT answer overwrites the previous one (no 'first answer sticks' condition on the result)")
     loops = [n for n in walk_local(wi.node) if isinstance(n, ast.For)]
     chk.ob("R04.4", "interpret.WorkingFrame.intercept:list-order", len(loops) == 1 and norm(loops[0].iter) == "self.accumulators", wi.where,
            "handlers are asked in list order (no reversal), so 'last' is the last registered")
@@ -217,13 +207,18 @@ def run(repo, chk):
            "the children of a matching selector go into the same ordered list, at the position of their owner: an older call-path override stays older than a newer flat one in the callee "
            "(a separate list appended at the end would reverse 'most recently activated wins')")
     rg = repo.func("interpret.Interactor.register")
-    chk.ob("R04.5", "interpret.Interactor.register:appends", "self.accumulators[v].append((element, acc))" in norm(rg.node), rg.where, "accumulators are registered by appending")
+    frg = facts_of(rg)
+    accp = rg.node.args.args[1].arg
+    regs_ = [n for t, c, n in frg.items if isinstance(n, ast.Call) and t.startswith("self.accumulators[")]
+    ok = len(regs_) == 1 and norm(regs_[0].func).endswith("].append") and norm(regs_[0].args[0]) == f"(element, {accp})" and not conds(regs_[0], rg.node) \
+        and frg.loops(regs_[0]) == [f"for (element, varnames) in {rg.node.args.args[2].arg}.items()", f"for {norm(regs_[0].func.value.slice)} in varnames"]
+    chk.ob("R04.5", "interpret.Interactor.register:appends", ok, rg.where, "accumulators are registered by appending")
     wf = repo.func("interpret.WorkingFrame.__init__")
     lc = [n for n in walk_local(wf.node) if isinstance(n, ast.ListComp)]
     chk.ob("R04.5", "interpret.WorkingFrame.__init__:keeps-order", len(lc) == 1 and norm(lc[0].generators[0].iter) == "accumulators.get(varname, [])", wf.where,
            "the working frame keeps the registration order of the matching accumulators")
     en = repo.func("overlay.BaseOverlay.__enter__")
-    chk.ob("R04.5", "overlay.BaseOverlay.__enter__:handlers-in-order", "handlers = [(h.selector, h) for h in self.handlers]" in norm(en.node), en.where,
+    chk.ob("R04.5", "overlay.BaseOverlay.__enter__:handlers-in-order", facts_of(en).mentions("([(h.selector, h) for h in self.handlers])"), en.where,
            "an overlay contributes its handlers in the order they were added")
 
 
@@ -260,15 +255,17 @@ def run(repo, chk):
         chk.ob("R04.6", f"overlay.Overlay.{m}:one-intercept-per-selector-bound-at-construction", ok, fi.where,
                f"{m}() builds Immediate(selector, intercept=...) for every entry, each closure holding its own value" + (f" -- {lb}" if lb else ""))
     oe = repo.func("probe.OverridableProbe._emit")
-    body = [n for n in oe.node.body if not (isinstance(n, ast.Expr) and isinstance(n.value, ast.Constant))]
-    ok = len(body) == 3 and norm(body[0]) == "self._value = ABSENT" and "super()._emit(" in norm(body[1]) and norm(body[2]) == "return self._value"
+    foe = facts_of(oe)
+    rs_, ps_, rt_ = foe.find("self._value = ABSENT", exactly=[]), [n for t, c, n in foe.starting("super()._emit(") if isinstance(n, ast.Call) and not c], foe.find("return self._value", exactly=[])
+    ok = len(rs_) == 1 and len(ps_) == 1 and len(rt_) == 1 and order(rs_[0]) < order(ps_[0]) < order(rt_[0]) and len(returns_of(oe.node)) == 1 \
+        and len([1 for t, c, n in foe.items if isinstance(n, (ast.Assign, ast.AugAssign)) and t.startswith("self._value")]) == 1
     chk.ob("R04.6", "probe.OverridableProbe._emit:answers-value-set-during-push", ok, oe.where,
            "the emitter resets the slot to ABSENT, pushes the event (subscribers run synchronously) and answers with whatever override() stored, ABSENT meaning 'decline'")
     for m, expr in (("override", "setter(data)"), ("koverride", "setter(**data)")):
         fi = repo.func(f"probe.OverridableProbe.{m}")
         ok = any(isinstance(n, ast.Assign) and norm(n.targets[0]) == "self._root._value" and norm(n.value) == expr for n in ast.walk(fi.node)) and \
-            "return self.subscribe(_override)" in norm(fi.node)
+            facts_of(fi).has("return self.subscribe(_override)", exactly=[])
         chk.ob("R04.6", f"probe.OverridableProbe.{m}:stores-into-root-slot", ok, fi.where, f"{m}() subscribes a function that stores {expr} into the root probe's slot")
     om = repo.func("probe.OverridableProbe._make_rule")
-    chk.ob("R04.6", "probe.OverridableProbe._make_rule:emitter-is-the-intercept", "Immediate(sel, intercept=self._make_emitter(sel), pass_info=True)" in norm(om.node), om.where,
+    chk.ob("R04.6", "probe.OverridableProbe._make_rule:emitter-is-the-intercept", facts_of(om).mentions("Immediate(sel, intercept=self._make_emitter(sel), pass_info=True)"), om.where,
            "the probe's emitter is installed as the intercept of an Immediate accumulator")
